@@ -58,7 +58,9 @@ impl<'a> RegExp<'a> {
                 if config.is_verbose_mode_enabled {
                     // Remove line breaks before checking matches, otherwise check will be incorrect.
                     if let Ok(regex_without_line_breaks) =
-                        Regex::new(&regex.to_string().replace('\n', ""))
+                        RegexBuilder::new(&regex.to_string().replace('\n', ""))
+                            .case_insensitive(config.is_case_insensitive_matching)
+                            .build()
                     {
                         regex = regex_without_line_breaks;
                     }
@@ -140,12 +142,20 @@ impl<'a> RegExp<'a> {
     }
 
     fn convert_expr_to_regex(expr: &Expression, config: &RegExpConfig) -> Option<Regex> {
-        if config.is_output_colorized {
+        let pattern = if config.is_output_colorized {
             let color_replace_regex = Regex::new("\u{1b}\\[(?:\\d+;\\d+|0)m").unwrap();
-            Regex::new(&color_replace_regex.replace_all(&expr.to_string(), "")).ok()
+            color_replace_regex
+                .replace_all(&expr.to_string(), "")
+                .to_string()
         } else {
-            Regex::new(&expr.to_string()).ok()
-        }
+            expr.to_string()
+        };
+        // The check has to search like the final expression does. With the flag (?i), letters such
+        // as "s" and "ſ" match each other although they are different test cases.
+        RegexBuilder::new(&pattern)
+            .case_insensitive(config.is_case_insensitive_matching)
+            .build()
+            .ok()
     }
 
     fn regex_matches_all_test_cases(regex: &Regex, test_cases: &[String]) -> bool {
